@@ -42,11 +42,20 @@ def run(name, patch):
     return name, res
 
 
+# second round (after the second seeding round): /tmp/benign2_out/CNN/{a,b,c} are stored as CNN-d, -e, -f
+FIRST.update({"C02-d": "analysis error", "C05-f": "analysis error", "C07-d": "false alarm (C01.R2)", "C07-f": "analysis error (C18.R1)",
+              "C08-d": "analysis error", "C08-e": "analysis error", "C08-f": "false alarm (C01.R5, C06.R2) + relocated known defect",
+              "C20-d": "false alarm (C08.R3)"})
+for r_ in ("C01", "C02", "C05", "C07", "C08", "C20"):
+    for x_ in "def":
+        FIRST.setdefault(f"{r_}-{x_}", "silent")
 os.makedirs(DST, exist_ok=True)
-for p in sorted(glob.glob("/tmp/benign_out/C*/[abc]/patch.diff")):
+for p in sorted(glob.glob("/tmp/benign_out/C*/[abc]/patch.diff")) + sorted(glob.glob("/tmp/benign2_out/C*/[abc]/patch.diff")):
     src = os.path.dirname(p)
-    name = p.split("/")[3] + "-" + p.split("/")[4]
+    name = p.split("/")[3] + "-" + (p.split("/")[4] if "/benign_out/" in p else {"a": "d", "b": "e", "c": "f"}[p.split("/")[4]])
     d = os.path.join(DST, name)
+    if os.path.exists(os.path.join(d, "patch.diff")):
+        continue       # already stored (possibly ported by hand to a later /repo HEAD): never overwritten
     os.makedirs(d, exist_ok=True)
     for fn in ("patch.diff", "notes.md", "check.py"):
         if os.path.exists(os.path.join(src, fn)):
